@@ -4,6 +4,7 @@ package c10
 import (
 	"bytes"
 	"fmt"
+	"hash/fnv"
 	"regexp"
 	"runtime/debug"
 	"sort"
@@ -191,6 +192,37 @@ func oracle(cx *lib.Ctx, src []byte, origin string) (bool, bool) {
 		}
 		if bytes.Equal(out, src) {
 			res.Count("bytes-equal-source")
+		}
+	}
+
+	// (5) a fragment: the same bytes loaded as if they sat at an offset of a larger document (start position
+	// with a non-zero byte offset, line and column).  The position only locates diagnostics; the tree and
+	// its serialisation are the same.
+	if cx.R != nil && len(src) < 4000 {
+		h := fnv.New32a()
+		h.Write(src)
+		hv := int(h.Sum32())
+		start := hcl.Pos{Byte: 1 + hv%977, Line: 1 + (hv/977)%40, Column: 1 + (hv/39080)%60}
+		var f2 *hclwrite.File
+		var d2 hcl.Diagnostics
+		if cx.Guard("parseconfig-at-offset", string(src), func() { f2, d2 = hclwrite.ParseConfig(src, "", start) }) {
+			res.Count("loaded-at-offset")
+			if d2.HasErrors() || f2 == nil {
+				cs.fail("load-error:at-offset", fmt.Sprintf("hclwrite.ParseConfig with start position %v reports errors for a configuration it loads at the initial position: %s", start, d2.Error()), "")
+			} else {
+				var seq2 []lib.TB
+				var out2 []byte
+				if cx.Guard("bytes-at-offset", string(src), func() {
+					seq2 = tokSeq(f2.BuildTokens(nil))
+					out2 = f2.Bytes()
+				}) {
+					if k, differ := lib.DiffKey(treeSeq, seq2); differ {
+						cs.fail("tokens-differ-at-offset:"+k, fmt.Sprintf("the tree loaded with start position %v holds other tokens than the tree loaded at the initial position", start), string(out2))
+					} else if !bytes.Equal(out, out2) {
+						cs.fail("bytes-differ-at-offset", fmt.Sprintf("File.Bytes() differs between start position %v and the initial position", start), string(out2))
+					}
+				}
+			}
 		}
 	}
 
